@@ -112,6 +112,47 @@ def run(rep, tier, seed, proof_broken=False):
         for f in race(rng, rep, same_object=(i % 2 == 0)):
             rep.violation(dict(kind="oracle-failure", oracle="race", what=f))
             return
+    interrupt_phase(rep, tier, seed)
+
+
+def interrupt_phase(rep, tier, seed):
+    """a stop request (SIGINT) while a locked operation is at work: the process ends and the object's lock is gone"""
+    rng = random.Random(seed + 2)
+    n = 3 if tier != "thorough" else 25
+    for i in range(n):
+        sb = phys.Sandbox(ext_staging=(i % 2 == 1))
+        try:
+            for k in range(30):
+                open(os.path.join(sb.src, "f%02d.bin" % k), "wb").write(os.urandom(2000))
+            sb.run(["init", "-l", "0004-hashed-n-tuple-storage-layout"])
+            sb.run(["new", "obj"])
+            sb.run(["cp", "obj", os.path.join(sb.src, "f00.bin"), "--", "first.bin"])
+            sb.run(["commit", "obj"])
+            op = rng.choice([["cp", "-r", "obj", sb.src, "--", "/"], ["cp", "obj"] + [os.path.join(sb.src, "f%02d.bin" % k) for k in range(30)] + ["--", "dst/"]])
+            if i % 3 == 2:
+                sb.run(op)
+                op = ["commit", "obj"]
+            base = sb.run(op, trace=True)
+            calls = [c for c in base["calls"] if phys.mutating(c) and not c.err]
+            lock = lock_path(sb, "obj")
+            after_lock = [c for c in calls[1:] if not (c.paths and c.paths[0] == lock)]
+            if not after_lock:
+                continue
+            # undo, then the same operation with SIGINT delivered at one of its calls
+            sb.run(["reset", "obj"]) if op[0] != "commit" else None
+            if op[0] == "commit":
+                continue
+            c = rng.choice(after_lock[: max(1, len(after_lock) * 2 // 3)])
+            r = sb.run(op, inject="%s:signal=SIGINT:when=%d" % (c.name, c.nth))
+            rep.evaluations += 1
+            rep.classes.add("sigint|%s|rc%d" % (op[0], min(r["rc"], 3) if r["rc"] >= 0 else -1))
+            rep.count("interrupt:%s:rc%d" % (op[0], r["rc"]))
+            if os.path.exists(lock):
+                rep.violation(dict(kind="oracle-failure", oracle="lock-released-after-interrupt",
+                                   what="`%s` interrupted by SIGINT at %s#%d exits %d and leaves the object's lock file behind" % (" ".join(op[:3]), c.name, c.nth, r["rc"])))
+                return
+        finally:
+            sb.close()
 
 
 def replay(rep, payload):
